@@ -396,10 +396,9 @@ class InteractingNetworks(Network):
         :rtype: 2D array [node index, node index]
         :return: the subnetwork's adjacency matrix.
         """
-        #  Create igraph Graph object describing the subgraph
-        subgraph = self.graph.subgraph(node_list)
-        #  Get adjacency matrix
-        return np.array(subgraph.get_adjacency(type=2).data).astype(np.int8)
+        #  Take the sub-block in the order given by node_list (an igraph
+        #  subgraph would silently reorder the nodes by index)
+        return self.adjacency[node_list, :][:, node_list].astype(np.int8)
 
     def cross_adjacency(self, node_list1, node_list2):
         """
